@@ -17,6 +17,7 @@ SITE_CRA = "ChineseRemainder<Ring,Domain,true>::operator()"
 KLASS_CRA = "result outside [0, M*D)"
 SITE_RU = "RNSsystem<Integer,Modular<ruint<7>>>::RingToRns"
 KLASS_RU = "integer wider than the element type"
+SITE_CRAASSIGN = "ChineseRemainder<Ring,Domain,REDUCE>::operator="
 SITE_FIXCOPY = "RNSsystemFixed::RNSsystemFixed(const Self_t&)"
 KLASS_FIXCOPY = "does not compile"
 
@@ -521,8 +522,9 @@ def main(tier, replay=None):
     if himpl is None:
         chk.broke("implementation harness does not compile against /repo", l2)
         return chk.finish()
-    # 2b. copy construction of the fixed system (compile-time probe)
+    # 2b. copy construction of the fixed system, assignment of the functor (compile-time probes)
     hfix, l3 = vf.build_harness("c14_fixedcopy.C")
+    hasg, l4 = vf.build_harness("c14_craassign.C")
     # 3. maxCardinality of the residue domains, from the implementation
     rc, mc, err = vf.run_lines(himpl, "".join("maxcard %s\n" % d for d in DOMS))
     if rc != 0 or len(mc) != len(DOMS):
@@ -698,7 +700,7 @@ def main(tier, replay=None):
     def add_cra(dom, red, M, D, A, e):
         il = "cra %s %d %d %d %d %d" % (dom, 1 if red else 0, M, D, A, e)
         variant = facts["cra_variant"] if red else "noreduce"
-        ml = "cra3 %s %d %d %d %d" % (variant, M, D, A, e)
+        ml = "cra %s %d %d %d %d" % (variant, M, D, A, e)
         cases.append({"kind": "cra", "hist": "", "sub": dom, "red": red, "M": M, "D": D, "A": A, "e": e, "impl": il, "model": ml})
     add_cra("mi64", True, 3, 5, 2, 1)
     add_cra("mi64", False, 3, 5, 2, 1)
@@ -862,7 +864,7 @@ def main(tier, replay=None):
             bump("RNSsystemFixed<Integer>::RnsToRing(%s)" % ("Array0<Integer>" if c["sub"] == "array0" else "vector<%s>" % c["sub"]), 2)
             bump("RNSsystemFixed n=%d%s" % (len(c["ps"]), " (grid)" if c.get("grid") else ""))
         elif kind == "cra":
-            bump("ChineseRemainder<IntegerDom,%s,%s> ctor/operator()/copy/operator=" % (CXX[c["sub"]], "true" if c["red"] else "false"))
+            bump("ChineseRemainder<IntegerDom,%s,%s> ctor/operator()/copy" % (CXX[c["sub"]], "true" if c["red"] else "false"))
         elif kind == "lift":
             bump("ChineseRemainder<IntegerDom,%s,true> lifting chain (%s)" % (CXX[c["sub"]], c["hist"]))
         elif kind == "poly":
@@ -941,21 +943,20 @@ def main(tier, replay=None):
                                    "differs from the unique CRT value in [0, prod)")
             elif kind == "cra":
                 M, D, A, e = c["M"], c["D"], c["A"], c["e"]
-                r, rcopy, rasg = [int(x) for x in il.split()]
+                r, rcopy = [int(x) for x in il.split()]
                 chk.count((kind, c["sub"], c["red"], M, D, A, e), nontrivial=(M > 1 and e != A % D))
                 form_count(kind, c)
                 cong = (r - A) % M == 0 and (r - e) % D == 0
                 site = SITE_CRA if c["red"] else "ChineseRemainder<Ring,Domain,false>::operator()"
-                if rcopy != r or rasg != r:
+                if rcopy != r:
                     spec_ok = False
-                    chk.fail_input(site, "copy of the functor answers differently" if rcopy != r else "assigned functor answers differently", c, r, il,
-                                   "a copy of the functor (original destroyed) / a functor assigned from it gives another value")
+                    chk.fail_input(site, "copy of the functor answers differently", c, r, il, "a copy of the functor (original destroyed) gives another value")
                 elif not cong:
                     spec_ok = False
                     chk.fail_input(site, "wrong residue", c, "res == A (mod M), res == e (mod D)", il, "the lifted value has wrong residues")
                 elif c["red"] and 0 <= A < M:
                     V = crt_oracle([M, D], [A, e])
-                    exp_toks = [str(V), str(V), str(V)]
+                    exp_toks = [str(V), str(V)]
                     if r != V:
                         spec_ok = False
                         chk.fail_input(SITE_CRA, KLASS_CRA, c, V, il, "congruent to the CRT value but not the unique integer in [0, M*D)")
@@ -1033,6 +1034,34 @@ def main(tier, replay=None):
                 if l.strip() != str(V):
                     chk.fail_input(SITE_FIXCOPY, "obtained by %s, %d moduli" % (h, len(c["ps"])), dict(c, impl="c14_fixedcopy: %s %s" % (h, c["model"].split(" ", 1)[1])),
                                    V, l, "copy-constructed fixed system differs from the CRT value")
+
+    # ---- assignment of the two-modulus functor: compile-time probe, then a run on the functor cases
+    if hasg is None:
+        if "operator=" in l4 or "deleted" in l4 or "assignment" in l4:
+            chk.fail_input(SITE_CRAASSIGN, "does not compile", {"impl": "harness/c14_craassign.C"}, "a functor can be assigned from another one",
+                           "compile error: " + " ".join(l4.split())[:600])
+        else:
+            chk.broke("harness/c14_craassign.C does not compile against /repo for another reason", l4)
+    else:
+        ac = [c for c in cases if c["kind"] == "cra" and c["sub"] in ("mi64", "mint", "mdouble")][:300]
+        ao, _, ae = run_resilient(hasg, ["%s %d %d %d %d %d" % (c["sub"], 1 if c["red"] else 0, c["M"], c["D"], c["A"], c["e"]) for c in ac], timeout=600)
+        if len(ao) != len(ac):
+            chk.broke("c14_craassign failed", ae)
+        else:
+            for c, l in zip(ac, ao):
+                chk.count(("craassign", c["sub"], c["red"], c["M"], c["D"], c["A"], c["e"]), nontrivial=c["M"] > 1)
+                bump("ChineseRemainder<IntegerDom,%s,%s>::operator= (over a used functor; self)" % (CXX[c["sub"]], "true" if c["red"] else "false"))
+                M, D, A, e = c["M"], c["D"], c["A"], c["e"]
+                try:
+                    v = [int(x) for x in l.split()]
+                    ok = len(v) == 3 and v[0] == v[1] == v[2] and (v[0] - A) % M == 0 and (v[0] - e) % D == 0
+                    if ok and c["red"] and 0 <= A < M:
+                        ok = v[0] == crt_oracle([M, D], [A, e])
+                except ValueError:
+                    ok = False
+                if not ok:
+                    chk.fail_input(SITE_CRAASSIGN, "assigned functor answers differently", dict(c, impl="c14_craassign: " + l), "three times the value of the original functor", l,
+                                   "a functor assigned over another one (source destroyed) / self-assigned does not return the lifted value")
 
     chk.cov["rule"] = ("systems obtained by every history (fresh, reuse, copy of cold/warm/copy, source changed after the copy, assignment over default/used/used-same-length, cold source over used target, "
                        "setPrimes over default/used/same-length/back again, default-copied-then-set) x constructor argument types (IntRNSsystem: vector<Integer> plain, vector<int32|uint32|int64|uint64> templated) "
